@@ -32,12 +32,12 @@ CLAIMED = {
  "C17": dict(
   level="exploration", design="§3 C17", engine="simos",
   technique="deterministic simulation with fault injection: the real jaq binary under a ptrace OS simulator, seeded stdin delivery schedules (chunking, EINTR, stall), short/failed writes, failed reads/opens; stdout/exit/stderr history compared with an executable reference model of the command line",
-  text="Seeded runs, each drawing (swarm-style) an option subset in a random documented spelling, a filter from a family exercising the main-loop/input/inputs accounting, halt, error, limit and label, an input stream over stdin or 1-3 files in every supported format (valid or truncated) and a stratum: fault-free, benign (every stdin chunking incl. 1 byte and mid-token, EINTR on reads and writes, short writes, mmap failure forcing the fallback read path) where stdout, stderr-emptiness and exit status must equal the reference model exactly; stall (stdin stops arriving after k values: everything derivable from the delivered prefix must already be on stdout, and runs that need no more input must terminate); failing reads, failing n-th stdout write (output must be a prefix of the model's, status 2, diagnostic), unwritable stderr, failing open of file j. This is sampling of schedules and faults (evidence, not proof); violations are minimised and written as replayable worlds.",
+  text="Seeded runs, each drawing (swarm-style) an option subset in a random documented spelling, a filter from a family exercising the main-loop/input/inputs accounting, halt, error, limit and label, an input stream over stdin or 1-3 files in every supported format (valid or truncated) and a stratum: fault-free, benign (every stdin chunking incl. 1 byte and mid-token, EINTR on reads and writes, short writes, mmap failure forcing the fallback read path) where stdout, stderr-emptiness and exit status must equal the reference model exactly; stall (stdin stops arriving after k values: everything derivable from the delivered prefix must already be on stdout, and runs that need no more input must terminate); failing reads, failing n-th stdout write (output must be a prefix of the model's, status 2, diagnostic), unwritable stderr, failing open of file j, malformed command lines (usage errors: status 2, diagnostic, no output). A second, in-process stratum runs the pieces main.rs composes for standard input - the streaming readers over a fault-injecting BufRead (chunks of 1..64 bytes, Interrupted, read error at the end), data::run with input/inputs, the value writers into a sink with short and interrupted writes - for 30 000 (thorough: 1 000 000) seeded schedules against the same model; it reaches far more schedules but not main.rs/cli.rs. This is sampling of schedules and faults (evidence, not proof); violations are minimised and written as replayable worlds / cases.",
   note="Trusted: kernel, libc, ptrace tracer, the reference model (vf/src/model/cli.rs, transcribed from docs/cli.dj); the tree's interpreter, slice parsers and value writers are shared by model and system (C01/C07/C14 not claimed). stdout/stderr are never terminals in the simulator."),
  "C19": dict(
   level="exploration", design="§3 C19", engine="simthreads",
   technique="deterministic simulation of thread schedules: shuttle's seeded random and PCT schedulers run 2-4 threads sharing one compiled filter (and, in the thread-safe value flavour, one value), every stream compared with the stream computed alone in a fresh process; a second stratum runs real threads under Miri's seeded preemptive scheduler; failing schedules / seeds are persisted and replayed exactly; Send + Sync facts asserted at compile time against the tree",
-  text="S0 (static): the simthreads crate asserts Filter<DataKind>, Filter<JustLut<Val>>, Lut and (with jaq-json/sync) Val to be Send + Sync and is compiled against the working tree in both flavours; a build failure naming these bounds is the violation. S1 (schedules): for 64 terminating programs (regex with differing flags, lazily created nested labels, closures, folds, updates, paths, codecs, formats, dates) x 8 inputs the isolated output stream is computed in a fresh process per pair; shuttle then runs seeded random and PCT schedules in which threads share one Arc<Filter> per program, pull one output per scheduling step, sometimes compile and run another program in between, and (sync flavour) work on one shared value; every stream must equal the isolated one, compilation must succeed iff it does alone, the shared value must be unchanged. S2 (preemption): 3 real threads sharing the compiled filters of 10 core-language programs (lazily created nested labels, folds, closures, recursion, updates) under Miri, whose scheduler preempts at basic-block granularity from a seed (12 seeds quick, 384 thorough; one seed = one exactly repeatable execution) and which also reports data races and undefined behaviour; every stream must equal the sequential one. Seeded search over schedules: evidence, not proof. jaq has no synchronisation of its own, so shuttle interleaves only at the scheduling points the harness inserts (between pulls, around compilation); interleavings inside one interpreter call are covered by the much smaller Miri stratum only.",
+  text="S0 (static): the simthreads crate asserts Filter<DataKind>, Filter<JustLut<Val>>, Lut and (with jaq-json/sync) Val to be Send + Sync and is compiled against the working tree in both flavours; a build failure naming these bounds is the violation. S1 (schedules): for 64 terminating programs (regex with differing flags, lazily created nested labels, closures, folds, updates, paths, codecs, formats, dates) x 8 inputs the isolated output stream is computed in a fresh process per pair; shuttle then runs seeded random and PCT schedules in which threads share one Arc<Filter> per program, pull one output per scheduling step, sometimes compile and run another program in between, and (sync flavour) work on one shared value; every stream must equal the isolated one, compilation must succeed iff it does alone, the shared value must be unchanged. S2 (preemption): 3 real threads sharing the compiled filters of 10 core-language programs (lazily created nested labels, folds, closures, recursion, updates) under Miri, whose scheduler preempts at basic-block granularity from a seed (12 seeds quick, 160 thorough; one seed = one exactly repeatable execution) and which also reports data races and undefined behaviour; every stream must equal the sequential one. Seeded search over schedules: evidence, not proof. jaq has no synchronisation of its own, so shuttle interleaves only at the scheduling points the harness inserts (between pulls, around compilation); interleavings inside one interpreter call are covered by the much smaller Miri stratum only.",
   note="Trusted: shuttle's scheduler and replay, Miri's scheduler and race detector, the isolated-process oracle. `now`, `env`, `input(s)` are excluded as the statement allows. Data races inside a single native call are not explorable by shuttle (no shuttle primitives inside jaq)."),
 }
 
